@@ -37,9 +37,27 @@ serve the call) reads the scripted terminal's pixel size, THEN sets the scripted
 to (c, r, x, y), then returns.  The twin's fresh value for this op is the one for the
 terminal the call was made at.  The resize is disarmed after the op.
 
+PROBE HISTORIES ({"probe": {"res": [...], "cmds": [...]}}): a function decorated with the
+REAL `utils.cached` whose body returns, per scripted argument tuple k, the object
+PROBE_OBJS[res[k]] (code -1 = None; 0, "", (None, None), a tuple, False, (), ...); the
+commands ["C", k] (call with argument tuple PROBE_ARGS[k]) and ["I"] (_invalidate_cache)
+are executed sequentially; per command: how often the body ran and which object came back
+(by identity).
+
+SWAP SCHEDULES ({"swap": {...}}): thread 0 runs a program of enable_/disable_win_size_swap
+calls, thread 1 one get_cell_size(); `utils._cell_size_lock` is replaced by a re-entrant
+lock that reports thread 0's lock events, so that thread 1's call runs, to completion,
+exactly at a chosen point: ["before"], ["after"], ["acq", j] (thread 0 is about to enter
+the `with` block of its j-th effective toggle), ["rel", j] (it has just left it), or
+["ioctl"] (thread 1 goes first and thread 0 runs, until it blocks on the lock or
+finishes, while thread 1 is inside its ioctl, i.e. inside the lock region and before it
+reads the flag).  Observed: flag, cache, thread 1's value, number of computations, a
+get_cell_size() made after both finished, and the twin's fresh values.
+
 Modes (stdin JSON):  list of cases -> list of results;  a case is either a history
-({"env", "t0", "ops"}), a thread race ({"threads": n, "fn": ...}) or a request for a
-fresh computation in this (new) interpreter ({"fresh": ...}).
+({"env", "t0", "ops"}), a thread race ({"threads": n, "fn": ...}), a probe history, a
+swap schedule, or a request for a fresh computation in this (new) interpreter
+({"fresh": ...}).
 """
 import importlib.util
 import json
@@ -202,6 +220,9 @@ class FcntlShim:
         assert fd == FAKE_FD and req == real_termios.TIOCGWINSZ, (fd, req)
         self.counters["cs"] += 1
         t = self.term
+        hook, t.ioctl_hook = getattr(t, "ioctl_hook", None), None
+        if hook:  # swap schedules: another thread gets to run while this one is inside get_cell_size's lock region
+            hook()
         if not t.env["io"]:
             if t.pres & 8:
                 raise OSError(25, "Inappropriate ioctl for device")
@@ -507,6 +528,186 @@ def run_threads(case):
     return {"rounds": rounds}
 
 
+# -------------------------------------------------------------------- probe histories
+
+PROBE_OBJS = [0, "", (None, None), (1, 2), False, (), 0.0, "unknown", [None]]
+PROBE_ARGS = [((), {}), ((0,), {}), ((1,), {}), (("x",), {}), ((1,), {"hex": True}), ((None,), {}),
+              ((), {"name": None}), ((1, 2), {})]
+
+
+def run_probe(case):
+    pr = case["probe"]
+    res = pr["res"]
+    runs = []
+
+    def body(*a, **kw):
+        k = PROBE_ARGS.index((a, kw))
+        runs.append(k)
+        c = res[k]
+        return None if c < 0 else PROBE_OBJS[c]
+
+    probe = U.cached(body)
+    rows = []
+    for cmd in pr["cmds"]:
+        n0 = len(runs)
+        if cmd[0] == "I":
+            probe._invalidate_cache()
+            rows.append({"runs": len(runs) - n0, "val": "-", "ran": runs[n0:]})
+            continue
+        a, kw = PROBE_ARGS[cmd[1]]
+        v = probe(*a, **kw)
+        if v is None:
+            code = -1
+        else:
+            code = next((i for i, o in enumerate(PROBE_OBJS) if o is v), 99)
+        rows.append({"runs": len(runs) - n0, "val": code, "ran": runs[n0:]})
+    return {"rows": rows}
+
+
+# --------------------------------------------------------------------- swap schedules
+
+
+class ScheduledRLock:
+    """A re-entrant lock standing for `utils._cell_size_lock` that reports the lock events
+    of ONE thread (`owner`): "acq" = about to acquire from outside, "rel" = just released
+    completely.  At the chosen event a one-shot hook runs in that thread."""
+
+    def __init__(self):
+        self._lock = threading.RLock()
+        self._depth = {}
+        self.owner = None
+        self.point = None
+        self.hook = None
+        self.count = {"acq": 0, "rel": 0}
+        self.attempt = threading.Event()  # the owner thread has reached an acquire
+
+    def _event(self, kind):
+        idx = self.count[kind]
+        self.count[kind] += 1
+        if self.hook and self.point == [kind, idx]:
+            hook, self.hook = self.hook, None
+            hook()
+
+    def acquire(self, blocking=True, timeout=-1):
+        me = threading.get_ident()
+        if me == self.owner and not self._depth.get(me):
+            self._event("acq")
+            self.attempt.set()
+        got = self._lock.acquire(blocking, timeout)
+        if got:
+            self._depth[me] = self._depth.get(me, 0) + 1
+        return got
+
+    def release(self):
+        me = threading.get_ident()
+        self._depth[me] -= 1
+        outer = self._depth[me] == 0
+        self._lock.release()
+        if outer and me == self.owner:
+            self._event("rel")
+
+    def __enter__(self):
+        self.acquire()
+        return self
+
+    def __exit__(self, *exc):
+        self.release()
+
+
+def run_swap(case):
+    sw = case["swap"]
+    env, size = sw["env"], list(sw["t0"])
+    reset_primary()
+    term = Term(env, size)
+    counters = {"cs": 0, "col": 0, "nv": 0}
+    install(U, term, counters)
+    targs = (env, size)
+    ref = [fresh("CS", targs, False, True), fresh("CS", targs, True, True)]
+    install(U, term, counters)
+
+    def code(v):
+        v = enc_cs(v) if not isinstance(v, list) else v
+        return 0 if v == [0] else 1 if v == ref[0] else 2 if v == ref[1] else 3
+
+    U._swap_win_size = bool(sw["f0"])
+    if sw["warm"]:
+        U.get_cell_size()
+    lock = ScheduledRLock()
+    old_lock, U._cell_size_lock = U._cell_size_lock, lock
+    try:
+        n0 = counters["cs"]
+        bret, errs = [], []
+
+        def prog_a():
+            try:
+                for b in sw["prog"]:
+                    (term_image.enable_win_size_swap if b else term_image.disable_win_size_swap)()
+            except BaseException as exc:  # noqa: B902
+                errs.append(repr(exc))
+
+        def get_b():
+            try:
+                bret.append(enc_cs(U.get_cell_size()))
+            except BaseException as exc:  # noqa: B902
+                errs.append(repr(exc))
+
+        def in_thread(f):
+            t = threading.Thread(target=f)
+            t.start()
+            t.join(20)
+            assert not t.is_alive(), "scheduled thread is stuck"
+
+        point = sw["point"]
+        fired = [0]
+        if point[0] == "ioctl":
+            ta = threading.Thread(target=lambda: (setattr(lock, "owner", threading.get_ident()), prog_a()))
+
+            def hook():
+                fired[0] = 1
+                ta.start()
+                t_end = time.time() + 20
+                while not lock.attempt.is_set() and ta.is_alive():  # until thread 0 blocks on the lock or finishes
+                    assert time.time() < t_end
+                    time.sleep(0.0002)
+
+            term.ioctl_hook = hook
+            get_b()
+            term.ioctl_hook = None
+            if fired[0]:
+                ta.join(20)
+                assert not ta.is_alive()
+            else:
+                in_thread(prog_a)
+        else:
+            lock.owner = threading.get_ident()
+            if point[0] == "before":
+                in_thread(get_b)
+            elif point[0] in ("acq", "rel"):
+                lock.point = list(point)
+
+                def hook():
+                    fired[0] = 1
+                    in_thread(get_b)
+
+                lock.hook = hook
+            prog_a()
+            lock.hook = None
+            if not bret and not errs:
+                in_thread(get_b)
+        ncomp = counters["cs"] - n0
+        flag = int(bool(U._swap_win_size))
+        cache = list(U._cell_size_cache)
+        ccode = 0 if cache == [0] * 4 else code([1] + cache[2:]) if cache[:2] == size[:2] else 3
+    finally:
+        U._cell_size_lock = old_lock
+    after = enc_cs(U.get_cell_size())
+    fr = fresh("CS", targs, flag, True)
+    install(U, term, counters)
+    return {"flag": flag, "cache": ccode, "bret": code(bret[0]) if bret else 3, "ncomp": ncomp, "after": after,
+            "fresh": fr, "fired": fired[0], "distinct": int(ref[0] != ref[1] and [0] not in ref), "errors": errs,
+            "raw_cache": cache, "ref": ref}
+
+
 # ------------------------------------------------------------- new-interpreter fresh
 
 
@@ -530,6 +731,10 @@ def run_fresh(case):
 def run_case(case):
     if "fresh" in case:
         return run_fresh(case)
+    if "probe" in case:
+        return run_probe(case)
+    if "swap" in case:
+        return run_swap(case)
     if "threads" in case:
         return run_threads(case)
     return run_history(case)
